@@ -334,6 +334,38 @@ class StateScan(TableBuilder):
                 if isinstance(dflt, (ast.Dict, ast.List, ast.Set)) or (
                         isinstance(dflt, ast.Call) and ast.unparse(dflt.func) in ("dict", "list", "set", "defaultdict", "OrderedDict")):
                     rec(fn.lineno, f"mutable default {a.arg}={ast.unparse(dflt)}")
+            # local aliases of instance state: `m = self.memo`, `m = vars(self).setdefault(...)`, `d = self.__dict__`, …
+            def self_rooted(e) -> bool:
+                if isinstance(e, ast.Call):
+                    f = e.func
+                    if isinstance(f, ast.Name) and f.id in ("vars", "getattr") and e.args and ast.unparse(e.args[0]) == "self":
+                        return True
+                    if isinstance(f, ast.Attribute) and f.attr in ("setdefault", "get", "__getitem__"):
+                        return self_rooted(f.value)
+                    return False
+                b = e
+                while isinstance(b, (ast.Attribute, ast.Subscript)):
+                    b = b.value
+                if isinstance(b, ast.Call):
+                    return self_rooted(b)
+                if isinstance(b, ast.Name):
+                    return (b.id == "self" and e is not b and not ast.unparse(e).startswith("self.rng")) or b.id in alias
+                return False
+
+            alias: set[str] = set()
+            for _ in range(2):
+                for n in ast.walk(fn):
+                    if isinstance(n, ast.Assign) and len(n.targets) == 1 and isinstance(n.targets[0], ast.Name) and self_rooted(n.value):
+                        alias.add(n.targets[0].id)
+            for n in ast.walk(fn):
+                if isinstance(n, (ast.Attribute, ast.Subscript)) and isinstance(getattr(n, "ctx", None), (ast.Store, ast.Del)):
+                    b = base_of(n)
+                    if (isinstance(b, ast.Name) and b.id in alias) or (isinstance(b, ast.Call) and self_rooted(b)):
+                        rec(n.lineno, "via alias: " + ast.unparse(n))
+                if isinstance(n, ast.Call) and isinstance(n.func, ast.Attribute) and n.func.attr in _MUTATORS:
+                    b = base_of(n.func.value)
+                    if (isinstance(b, ast.Name) and b.id in alias) or (isinstance(b, ast.Call) and self_rooted(b)):
+                        rec(n.lineno, "via alias: " + ast.unparse(n))
             for n in ast.walk(fn):
                 if isinstance(n, (ast.Global, ast.Nonlocal)):
                     rec(n.lineno, ("global " if isinstance(n, ast.Global) else "nonlocal ") + ", ".join(n.names))
